@@ -56,13 +56,16 @@ CHECKS = {
         note=NOTE_COMMON + "encoding/json's scanner/encoder are trusted; the struct-field matching of encoding/json is validated by the correspondence only.",
     ),
     "C08": dict(
-        technique="Lean 4 theorems over any linear order (fold of min/max is the glb/lub; Overlaps = interval arithmetic) + differential correspondence with a semantic X/Y/Z/M oracle",
+        technique="Lean 4 theorems over any linear order (fold of min/max is the glb/lub; one Extend in canonical X/Y/Z/M form for all 16 layout pairs; permutation invariance of Extend sequences; recursion into collections = leaves; Overlaps = interval arithmetic) + differential correspondence with a semantic X/Y/Z/M oracle",
         text="Theorems: Bounds() of every flat geometry is the fold of coordinate-wise min/max (C08_bounds_flat_fold), that fold is exactly the greatest "
              "lower / least upper bound per slot over any linear order (C08_fold_min_is_glb, C08_fold_max_is_lub), and the Overlaps loop returns true iff "
-             "every dimension's closed intervals share a point (C08_overlaps_iff). Extend over layout mixes and nested collections is modelled "
-             "(extendLayout's slot moves, the XYM-into-XYZM loop, recursion into collections) and compared with Go on every run; the oracle places each "
-             "ordinate in its semantic dimension and demands the exact min/max there, which decides order-independence and Z/M separation on explored inputs.",
-        note=NOTE_COMMON + "Partial: the order-independence statement for Extend sequences is not yet a theorem (oracle + correspondence only).",
+             "every dimension's closed intervals share a point (C08_overlaps_iff). extendFlat_sem: for each of the 16 (box layout, geometry layout) pairs among "
+             "XY/XYZ/XYM/XYZM one Extend (extendLayout's slot moves, the plain loop, the XYM-into-XYZM loop) keeps a well-formed box of the promoted layout "
+             "whose canonical X/Y/Z/M slots are the point-wise min/max with the geometry's coordinates - Z with Z, M with M (C08_z_with_z_m_with_m). "
+             "C08_extend_order_independent: for every box, every list of such geometries and every permutation, both orders succeed and give the same box. "
+             "C08_collection_recursive: extending by a nested collection is extending by its leaves in order. The model is compared with Go on every run; "
+             "the oracle places each ordinate in its semantic dimension and demands the exact min/max there.",
+        note=NOTE_COMMON + "Boxes and geometries of the four named layouts; Layout(n>4) and NoLayout boxes are covered by the correspondence run only. +-Inf are modelled as greatest/least elements of a linear order (floats without NaN).",
     ),
     "C09": dict(
         technique="Lean 4 theorems over any commutative ring (loop = sum over vertex pairs; telescoping trapezoid = shoelace; additivity; totality) + bit-exact float correspondence + exact rational oracle",
